@@ -22,7 +22,7 @@ dump <i>                                 → absent | file lines joined by the t
 region D12                               → in | out
 ```
 atoms `N` `T` `F` `i<int>` `s<text>`; elements: an atom, `U<atom>+<atom>…` (tuple, `U` = `()`),
-`V<atom>+…` (list); values: an atom, `U…` (tuple), `L<elem>,<elem>…` (list), `D<k>=<atom>,…` (dict),
+`V<atom>+…` (list); values: an atom, `U…` (tuple), `L<elem>,<elem>…` (list), `K<elem>,…` (collections.deque), `D<k>=<atom>,…` (dict),
 `Q<k>=<atom>,…` (odict); entries `M<f>=<elem>,…` (mapping) / `O<elem>` / `OL<atom>,…` (non-mappings).
 Stamps are in units of 1/8 s and are printed as Python prints the float.
 -/
@@ -68,7 +68,8 @@ def parseDict (s : String) : Option (Dict Atom) :=
 
 def parseVal (s : String) : Option Val :=
   match s.toList with
-  | 'L' :: rest => (parseElems (String.ofList rest)).map .list
+  | 'L' :: rest => (parseElems (String.ofList rest)).map (.list false)
+  | 'K' :: rest => (parseElems (String.ofList rest)).map (.list true)
   | 'U' :: rest => (parsePlus (String.ofList rest)).map .tuple
   | 'D' :: rest => (parseDict (String.ofList rest)).map (.dict false)
   | 'Q' :: rest => (parseDict (String.ofList rest)).map (.dict true)
@@ -145,7 +146,8 @@ def reprElem : Elem → String
 def showVal : Val → String
   | .atom a => showAtom a
   | .tuple l => reprTuple l
-  | .list l => "[" ++ ", ".intercalate (l.map reprElem) ++ "]"
+  | .list false l => "[" ++ ", ".intercalate (l.map reprElem) ++ "]"
+  | .list true l => "deque([" ++ ", ".intercalate (l.map reprElem) ++ "])"
   | .dict false d => "{" ++ ", ".intercalate (d.map fun (k, v) => "'" ++ k ++ "': " ++ reprAtom v) ++ "}"
   | .dict true d =>
     "odict([" ++ ", ".intercalate (d.map fun (k, v) => "('" ++ k ++ "', " ++ reprAtom v ++ ")") ++ "])"
@@ -169,7 +171,7 @@ def errName : Err → String
 /-! the D12 region: a write to a loggee of an update log that already logged at this store stamp -/
 
 def valLen : Val → String
-  | .list l => toString l.length
+  | .list _ l => toString l.length
   | .dict _ d => toString d.length
   | _ => "x"
 
